@@ -19,7 +19,7 @@ P("C01",
   technique="PBT with independent oracle: rapid-generated envelopes (fresh / near-miss / re-assembled / byte-mutated) x policies x reader behaviours x decoy signatures listed first; own JWS+COSE verifier and own payload decoder decide what a success may be; native fuzz in thorough",
   level_text="Exploration: every success reported by verifier.Verify/VerifyBlob and notation.Verify/VerifyBlob over generated envelopes, descriptors, metadata maps and all 24 enforcement maps is re-checked by an independent implementation of the envelope formats; cannot prove absence, but reaches the products of factors (mismatch x satisfied metadata, customised level x tampering) the unit tests never combine.",
   level_note="Trusts Go's crypto primitives, the harness's own JWS/COSE implementation (cross-validated against the library in both directions in every run) and fxamacker/cbor.",
-  health={"success": 50, "src=fresh": 20, "src=descriptor-nearmiss": 20, "src=metadata-nearmiss": 20, "src=reassembled": 20, "src=bytemutated": 20, "src=wrong-payload-type": 5},
+  health={"success": 50, "src=fresh": 20, "src=descriptor-nearmiss": 20, "src=metadata-nearmiss": 20, "src=reassembled": 20, "src=bytemutated": 20, "src=wrong-payload-type": 5, "plugin-misbehaves=nil-response": 50},
   fuzz=[{"name": "FuzzC01_VerifyJWS", "seconds": 120}, {"name": "FuzzC01_VerifyCOSE", "seconds": 120}],
   assumptions=["cryptographic soundness of RSASSA-PSS/ECDSA as implemented by Go", "valid = valid under the six supported algorithms"])
 
@@ -27,14 +27,14 @@ P("C02",
   technique="model-based PBT: exhaustive no-plugin grid + rapid plugin scenarios against a decision table written from the statement; metamorphic monotonicity (strict=>permissive=>audit) and action-tagging relations; call-log invariants of scripted collaborators",
   level_text="Exploration with an exhaustively enumerated core (all 24 enforcement maps x trust x identity x expiry x certificate-time x revocation situations without plugin) plus sampled plugin scenarios; the model restates the statement, the relations are model-independent.",
   level_note="Trusts the scripted trust store / revocation / plugin mocks and the harness's envelope builders; margins of >= 30 min around the wall clock.",
-  health={"accept": 50, "reject": 50, "plugin": 50, "crit=unprocessed": 5, "crit=processed": 5, "rev=skip": 10, "logged-failure": 20, "noncritical-attr-before": 20, "noncritical-attr-not-reported-by-plugin": 20, "blob-statement-with-same-name": 200},
+  health={"accept": 50, "reject": 50, "plugin": 50, "crit=unprocessed": 5, "crit=processed": 5, "rev=skip": 10, "logged-failure": 20, "noncritical-attr-before": 20, "noncritical-attr-not-reported-by-plugin": 20, "blob-statement-with-same-name": 200, "crit-key-extends-plugin-header-name": 100},
   assumptions=["non-critical extended attributes are generated only as incidental filler (they must never decide anything, reported by the plugin or not); a non-critical plugin-name attribute is outside the statement and not generated"])
 
 P("C03",
   technique="model-based PBT: generated placements of chain certificates into typed named stores x statement store lists; set-semantics oracle + call-log invariant of an instrumented trust store; scripted and real directory-backed stores; verifier instances reused across verifications",
   level_text="Exploration: authenticity verdict and the exact (type,name) sequence of trust-store loads compared with a set-semantics model over generated placements, multi-statement documents, both schemes and formats.",
   level_note="Trusts the instrumented trust store mock; a sub-family runs against the real directory-backed store.",
-  health={"auth=pass": 30, "auth=fail": 30, "decoy-wrong-type": 10, "decoy-unlisted": 10, "decoy-other-statement": 10, "listed-store-error": 10, "real-directory-store": 10, "verification-plugin=ti": 100, "scope-case-twin-selected": 100, "plugin-runs-after-logged-authenticity-failure": 50, "concurrent-verifications": 1})
+  health={"auth=pass": 30, "auth=fail": 30, "decoy-wrong-type": 10, "decoy-unlisted": 10, "decoy-other-statement": 10, "listed-store-error": 10, "real-directory-store": 10, "verification-plugin=ti": 100, "scope-case-twin-selected": 100, "plugin-runs-after-logged-authenticity-failure": 50, "concurrent-verifications": 1, "listed-store-is-symlink": 50, "listed-store-bundle-ends-in-leaf": 50})
 
 P("C04",
   technique="model-based + metamorphic PBT: structured subject/identity generators, own RFC 4514 renderer with generated spacing/alias/escaping; subset oracle on structured data; permutation/spacing/alias invariance",
@@ -47,19 +47,19 @@ P("C05",
   technique="bounded-exhaustive enumeration of all result vectors {OK,NonRevokable,Unknown,Revoked}^n, n<=4 x action x interface x scheme, plus rapid-generated decorations; aggregation oracle + received-options check of a scripted validator",
   level_text="Exhaustive over the 340 result vectors x {enforce,log,skip} x both validator interfaces x both schemes (finite space, fully enumerated), sampled over method annotations and server errors.",
   level_note="Trusts the scripted validator to record the options it received; result vectors have the chain's length (validator contract).",
-  health={"final=ok": 10, "final=revoked": 10, "final=unknown": 10, "validator-error": 5, "action=skip": 10, "iface=client": 10, "subjects=empty-leaf": 100, "context-cancelled-during-check": 50, "validity=expired-nonleaf": 100})
+  health={"final=ok": 10, "final=revoked": 10, "final=unknown": 10, "validator-error": 5, "action=skip": 10, "iface=client": 10, "subjects=empty-leaf": 100, "context-cancelled-during-check": 50, "validity=expired-nonleaf": 100, "identity-only-plugin": 100, "decor=6": 100})
 
 P("C06",
   technique="model-based PBT: generated expiry/signing-time/validity-window placements and RFC 3161 countersignatures from an in-process TSA; decision model of the statement; both-sides-data boundaries tested exactly",
   level_text="Exploration over time placements (margins around the wall clock, exact boundaries where both sides are data) and countersignature situations produced by an in-process TSA.",
   level_note="Trusts the in-process TSA port and tspclient-go's CMS verification; no assertion at exact wall-clock instants.",
-  health={"expiry=past": 10, "expiry=future": 10, "scheme=sa": 20, "tsa=applies": 30, "token=valid": 10, "token=absent": 5, "token=wrong-imprint": 5, "token=untrusted-tsa": 5, "ts=pass": 10, "ts=fail": 10, "token=ca-as-tsa": 10, "token=keyenc-only": 10, "revoked-tsa-under-revocation-skip": 5, "tsarev=revoked-later": 10})
+  health={"expiry=past": 10, "expiry=future": 10, "scheme=sa": 20, "tsa=applies": 30, "token=valid": 10, "token=absent": 5, "token=wrong-imprint": 5, "token=untrusted-tsa": 5, "ts=pass": 10, "ts=fail": 10, "token=ca-as-tsa": 10, "token=keyenc-only": 10, "revoked-tsa-under-revocation-skip": 5, "tsarev=revoked-later": 10, "constructor=legacy": 100, "real-directory-store": 100})
 
 P("C07",
   technique="round-trip PBT: sign with the real signing API (local + honest in-process plugin signers) then verify; payload/digest/expiry/descriptor/metadata compared with the harness's own computation",
   level_text="Exploration: full sign->verify round trips over key specs x formats x signer kinds x OCI/blob targets x metadata x expiry; every observable the statement names is recomputed independently.",
   level_note="Trusts Go's crypto and JSON; JWS descriptor sizes are bounded by 2^53 (known finding F13 in a dependency).",
-  health={"kind=oci": 20, "kind=blob": 20, "signer=local": 10, "signer=plugin-raw": 10, "signer=plugin-envelope": 10, "format=jws": 20, "format=cose": 20, "artifact-annotations-empty-map": 20, "signer-reused-after-other-key": 20, "verify-omits=media-type": 10},
+  health={"kind=oci": 20, "kind=blob": 20, "signer=local": 10, "signer=plugin-raw": 10, "signer=plugin-envelope": 10, "format=jws": 20, "format=cose": 20, "artifact-annotations-empty-map": 20, "signer-reused-after-other-key": 20, "verify-omits=media-type": 10, "untrusted-signature-of-other-format-listed-first": 20, "large-metadata-through-registry-client": 6},
   shards={"quick": 12, "thorough": 16})
 
 P("C08",
@@ -97,7 +97,7 @@ P("C10",
   level_text="Exploration with an exhaustively enumerated core: every listing of up to 5 (quick) / 8 (thorough) signatures x every page split x every limit x reference kinds is run through notation.Verify and compared with a model written from the statement, including exact fetch/verify call counts; larger listings are sampled with rapid; a second family realises the statuses with real signatures, the real verifier and an in-memory OCI store and evaluates the model on the order the store actually lists.",
   level_note="Trusts the scripted Repository/Verifier mocks to record calls faithfully and oras' reference parser for what counts as a tag/digest reference.",
   design_ref="DESIGN.md section 5, C10",
-  health={"success": 10, "success-after-invalid": 5, "multi-page": 10, "empty-page": 5, "skip": 5, "ref=mismatch": 5, "limit<=0": 5, "real-verifier": 10, "ref=mismatch-sha512": 100},
+  health={"success": 10, "success-after-invalid": 5, "multi-page": 10, "empty-page": 5, "skip": 5, "ref=mismatch": 5, "limit<=0": 5, "real-verifier": 10, "ref=mismatch-sha512": 100, "listing-repeats-a-descriptor": 200},
   assumptions=["a verifier that returns an error together with a nil outcome is outside the statement and not generated"])
 
 P("C11",
